@@ -129,12 +129,23 @@ Find(nm) == /\ st = "open" /\ NoneAttached /\ nm # NoName
             /\ Log("Find", [name |-> nm], [found |-> IF \E g \in DOMAIN vgs : vgs[g].name = nm
                                                   THEN CHOOSE g \in DOMAIN vgs : vgs[g].name = nm ELSE "none"])
             /\ UNCHANGED <<st, vgs, vds, ng>>
+\* a file-level scan (Vlone attaches every vgroup internally) while vgroups are attached and edited: what
+\* it reports then is not stated (it may or may not see unsaved edits), but it must not disturb them
+Peek == /\ st = "open" /\ ~NoneAttached
+        /\ Log("Peek", [a |-> 0], [ret |-> 0])
+        /\ UNCHANGED <<st, vgs, vds, ng>>
+\* a second Vattach of a vgroup that is already attached, released again at once
+Reattach(g, m) == /\ st = "open" /\ Attached(g)
+                  /\ Log("Reattach", [g |-> g, mode |-> m], [ret |-> 0])
+                  /\ UNCHANGED <<st, vgs, vds, ng>>
+
 Reopen == /\ st = "open" /\ NoneAttached
           /\ Log("Reopen", [a |-> 0], [ret |-> 0])
           /\ UNCHANGED <<st, vgs, vds, ng>>
 
 Members == AllG \cup AllD \cup Raws
-Next == \/ Setup(NumD) \/ New \/ Lone \/ Iterate \/ Reopen
+Next == \/ Setup(NumD) \/ New \/ Lone \/ Iterate \/ Reopen \/ Peek
+        \/ \E g \in AllG, m \in {"r", "w"} : Reattach(g, m)
         \/ \E g \in AllG, nm \in Names : SetName(g, nm) \/ SetClass(g, nm)
         \/ \E g \in AllG, m \in Members : Add(g, m) \/ Insert(g, m) \/ DelRef(g, m) \/ Inq(g, m)
         \/ \E g \in AllG : Detach(g) \/ DeleteG(g) \/ Info(g)
